@@ -21,7 +21,10 @@ def gen(rnd, kind):
         cmds += [("previous-history",)] * rnd.randrange(1, len(hist) + 3)
     elif kind == "updown":      # (b) up k, down k+: back to what was being typed
         k = rnd.randrange(1, len(hist) + 2)
-        cmds += [("previous-history",)] * k + [("next-history",)] * (k + rnd.randrange(0, 3))
+        if rnd.random() < 0.3:      # to the oldest entry at once, then all the way down
+            cmds += [("beginning-of-history",)] + [("next-history",)] * (len(hist) + 2)
+        else:
+            cmds += [("previous-history",)] * k + [("next-history",)] * (k + rnd.randrange(0, 3))
     elif kind == "search":      # (c)
         for _ in range(rnd.randrange(1, 7)):
             cmds.append((rnd.choice(SEARCH + ["history-search-backward"]),))
